@@ -97,14 +97,17 @@ def run(ctx):
         for j in idx:
             tam.append({"proto": rnd.choice(["gm", "tls"]), "cap": 1, "ops": base + [{"op": "tamper", "name": "a", "region": region, "byte": j + 1000},
                         {"op": "connect", "name": "a", "offered": True, "expect": "full", "sid": 2, "suite": "CBC", "hascert": False}]})
-    cbase = [{"op": "auth", "a": "require", "ccert": True},
-             {"op": "connect", "name": "a", "offered": False, "expect": "full", "sid": 1, "suite": "CBC", "hascert": True}]
-    for region, n in (("state_tail", 8), ("state", 700), ("mac", 32), ("iv", 16)):
-        idx = range(n) if thorough else (list(range(3)) + rnd.sample(range(3, n), 2) if region == "state_tail" else rnd.sample(range(n), 2))
-        for j in idx:
-            for proto in ("gm", "tls"):
-                tam.append({"proto": proto, "cap": 1, "ops": cbase + [{"op": "tamper", "name": "a", "region": region, "byte": j + 1000},
-                            {"op": "connect", "name": "a", "offered": True, "expect": "full", "sid": 2, "suite": "CBC", "hascert": True}]})
+    # sessions that carry a client certificate, under a verifying policy and under one that takes any certificate (there a
+    # changed certificate byte is not caught by chain verification: only the ticket's MAC stands in the way)
+    for pol in ("require", "requireany"):
+        cbase = [{"op": "auth", "a": pol, "ccert": True, "untrusted": False},
+                 {"op": "connect", "name": "a", "offered": False, "expect": "full", "sid": 1, "suite": "CBC", "hascert": True}]
+        for region, n in (("state_tail", 8), ("state", 700), ("mac", 32), ("iv", 16)):
+            idx = range(n) if thorough else (list(range(3)) + rnd.sample(range(3, n), 2) if region == "state_tail" else rnd.sample(range(n), 2))
+            for j in idx:
+                for proto in ("gm", "tls"):
+                    tam.append({"proto": proto, "cap": 1, "ops": cbase + [{"op": "tamper", "name": "a", "region": region, "byte": j + 1000},
+                                {"op": "connect", "name": "a", "offered": True, "expect": "full", "sid": 2, "suite": "CBC", "hascert": True}]})
     for h in tam:
         for o in h["ops"]:
             if o["op"] == "tamper":
